@@ -133,7 +133,8 @@ Definition gen_env_policy : write_policy :=
 (* gogrepCompile builds CompileConfig.Imports for every compilation from the group it is handed (or stores it
    unconditionally per group), and every call site -- rule patterns, Contains() sub-patterns, the template-variable
    check -- hands in the group being loaded *)
-Lemma gen_pattern_env_own : gen_env_policy = WriteAlways /\ gen_pattern_env_group_is_loaded_group = true.
+Lemma gen_pattern_env_own : gen_env_policy = WriteAlways /\ gen_pattern_env_group_is_loaded_group = true /\
+  strs_eqb gen_pattern_env_compile_sites ["checkTemplateVars"; "loadSyntaxRule"; "newFilter"]%string = true.
 Proof. vm_compute. auto. Qed.
 Lemma gen_compile_envs_spec : forall (R : Type) init (groups : list (imports * list R)),
   compile_envs gen_env_policy init groups = spec_envs groups.
